@@ -1,12 +1,162 @@
-/-! line-protocol handlers for corr:robust (C15).  Readers that have a model are routed to that
-model's handlers (`v.parse`, `v.con`, `f.idx.r`, `f.idb.r`, `f.pw.r`, `f.gr.r`); for the library-backed
-readers (gzip, tar, YAML, JSON) the oracle "returned a result or an error, promptly" is evaluated by
-the harness and there is nothing for the model to add. -/
+import Apko.Model.RobustStream
+import Apko.Driver.Formats
+/-! line-protocol handlers for corr:robust (C15).
+
+Readers that have a value-level model elsewhere are routed to that model's handlers by the suite
+(`v.parse`, `v.con`, `f.idx.r`, `f.idb.r`, `f.pw.r`, `f.gr.r`).  The handlers here run the checked-accessor
+models of `Model/Robust.lean` and the stream / include models of `Model/RobustStream.lean` with the
+guard lists regenerated from /repo (`x` = hex text):
+
+  x.pw <x> / x.gr <x>        UserFile.Load / GroupFile.Load through the checked models
+  x.osrel <x>                readReleaseData: ID|NAME|VERSION_ID
+  x.ctl <x>                  controlValue on a .PKGINFO text for the keys datahash, triggers; then datahash
+  x.perms <x>                parseInstalledPerms
+  x.world <x> / x.repos <x>  GetWorld / GetRepositories
+  x.repoline <x>             the `@tag url` decision of GetRepositoryIndexes: ok / invalid
+  x.groups <x>               number of capturing groups of a regular-expression literal
+  x.resub <which> <x> <m;m;…>  ParseVersion / ResolvePackageNameVersionPin / parseAlpineVersion / signature name
+                             on the submatch lists the real expression returned (m = x.x.x…)
+  x.split <members> / x.expand <members>   Split / ExpandApk on a stream of gzip members
+  x.idxarch <gzOk> <entries> <end>         IndexFromArchive on tar entries
+  x.inc <path> <files>       ImageConfiguration.Load over an include graph
+  x.robust <id>              library-backed readers: nothing for the model to add
+
+An answer `oob` never equals what the Go side sends: the real code answering at all means it did not
+panic, so a model that says `oob` is a broken correspondence; the Go side panicking is a violation by
+itself. -/
+
 namespace Apko.Driver.Robust
+open Apko Apko.Formats Apko.Robust
+
+def triple (impl : String) : String := impl ++ "\t" ++ impl ++ "\t-"
+
+def showR {α : Type} (f : α → String) : Res α → String
+  | .ok a => f a
+  | .err => "err"
+  | .oob => "oob"
+
+def hexList (l : List Text) : String := ",".intercalate (l.map hexS)
+
+def rBool (s : String) : Bool := s = "1"
+
+/-- member: size,headerOk,bodyOk,firstName(hex or -),tarOk,restOk,restSumsOk,restTarOk -/
+def rMember (s : String) : Option Member :=
+  match s.splitOn "," with
+  | [sz, h, b, n, t, r, rs, rt] =>
+    some ⟨sz.toNat!, rBool h, rBool b, (if n = "-" then none else some (unhexS n)), rBool t, rBool r, rBool rs, rBool rt⟩
+  | _ => none
+
+def rMembers (s : String) : Option (List Member) :=
+  if s = "" then some [] else mapAllOpt rMember (s.splitOn ";")
+
+/-- entry: name(hex),readOk,parseOk -/
+def rEntry (s : String) : Option Entry :=
+  match s.splitOn "," with
+  | [n, r, p] => some ⟨unhexS n, rBool r, rBool p⟩
+  | _ => none
+
+def rEntries (s : String) : Option (List Entry) :=
+  if s = "" then some [] else mapAllOpt rEntry (s.splitOn ";")
+
+/-- file: key(hex),decodes,include(hex) -/
+def rConf (s : String) : Option (Text × ConfFile) :=
+  match s.splitOn "," with
+  | [k, d, i] => some (unhexS k, ⟨rBool d, unhexS i⟩)
+  | _ => none
+
+def rConfs (s : String) : Option ConfFS :=
+  if s = "" then some [] else mapAllOpt rConf (s.splitOn ";")
+
+def rMatch (s : String) : List Text := if s = "-" then [] else (s.splitOn ".").map unhexS
+def rMatches (s : String) : List (List Text) := if s = "" then [] else (s.splitOn ";").map rMatch
+
+def showVersion (v : Apko.Version) : String :=
+  s!"ok {v.numbers}|{v.letter}|{v.pre}|{v.preNum}|{v.post}|{v.postNum}|{v.rev}"
+
+/-- all values recorded for a key, in file order -/
+def valuesOf (kvs : List (Text × Text)) (k : Text) : List Text :=
+  (kvs.filter fun p => p.1 = k).map (·.2)
 
 def handle (args : List String) : Option String :=
   match args with
   | ["x.robust", _] => some "-\t-\t-"
+  | ["x.pw", x] =>
+    some <| triple <| showR (fun l => ";".intercalate (l.map Driver.Formats.wUser))
+      (loadRes (userParse Generated.lenGuards_UserParse) (unhexS x))
+  | ["x.gr", x] =>
+    some <| triple <| showR (fun l => ";".intercalate (l.map Driver.Formats.wGroup))
+      (loadRes (groupParse Generated.lenGuards_GroupParse) (unhexS x))
+  | ["x.osrel", x] =>
+    some <| triple <| showR (fun (a, b, c) => s!"ok {hexS a}|{hexS b}|{hexS c}")
+      (readRelease Generated.prefixGuards_readReleaseData (unhexS x))
+  | ["x.ctl", x] =>
+    let want := ["datahash".toList, "triggers".toList]
+    let r := controlValues Generated.lenGuards_controlValue want (unhexS x)
+    some <| triple <| showR (fun kvs =>
+      let dh := valuesOf kvs "datahash".toList
+      s!"ok {hexList dh}|{hexList (valuesOf kvs "triggers".toList)}|" ++
+        showR hexS (datahashOf Generated.lenGuards_datahash dh)) r
+  | ["x.perms", x] =>
+    some <| triple <| showR (fun (u, g, p) => s!"ok {u}|{g}|{p}")
+      (installedPerms Generated.lenGuards_parseInstalledPerms (unhexS x))
+  | ["x.world", x] => some <| triple ("ok " ++ hexList (world (unhexS x)))
+  | ["x.repos", x] => some <| triple ("ok " ++ hexList (repositories (unhexS x)))
+  | ["x.repoline", x] =>
+    some <| triple <| showR (fun _ => "ok")
+      (repoLine Generated.lenGuards_GetRepositoryIndexes Generated.prefixGuards_GetRepositoryIndexes (unhexS x))
+  | ["x.groups", x] => some <| triple (toString (countGroups (unhexS x)))
+  | ["x.resub", which, input, ms] =>
+    let all := rMatches ms
+    let one := all.headD []
+    let wf (lit : String) (l : List (List Text)) : String :=
+      if l.all (fun m => m.length = submatchLen lit) then "wf" else "not-wf"
+    some <| triple <| match which with
+      | "version" => wf Generated.versionRegex all ++ " " ++
+          showR showVersion (parseVersionG Generated.lenGuards_ParseVersion all)
+      | "pin" => wf Generated.packageNameRegex all ++ " " ++
+          showR (fun o => match o with
+            | none => s!"{input}||0|"
+            | some (n, v, p, op) =>
+              s!"{hexS n}|{hexS v}|{(if op.isEmpty then Dep.any else opOf op).toNat}|{hexS p}")
+            (resolvePinG Generated.lenGuards_ResolvePin all)
+      | "alpine" => wf Generated.re_repoRE (if one = [] then [] else [one]) ++ " " ++
+          showR (fun o => match o with | none => "none" | some v => "ok " ++ hexS v)
+            (alpineVersionG Generated.lenGuards_parseAlpineVersion one)
+      | "signature" => wf Generated.re_signatureFileRegex (if one = [] then [] else [one]) ++ " " ++
+          showR (fun (k, t) => s!"ok {hexS k}|{hexS t}")
+            (signatureNameG Generated.lenGuards_parseRepositoryIndex one)
+      | _ => "bad-wire"
+  | ["x.split", ms] =>
+    some <| triple <| match rMembers ms with
+      | none => "bad-wire"
+      | some ms =>
+        match splitG Generated.prefixGuards_Split ms with
+        | .ok parts => s!"ok {parts.length} " ++
+            showR (fun _ => "control") (controlOf Generated.lenGuards_ParsePackageInfo parts)
+        | .err => "err"
+        | .oob => "oob"
+  | ["x.expand", ms] =>
+    some <| triple <| match rMembers ms with
+      | none => "bad-wire"
+      | some ms =>
+        match expandApkG Generated.prefixGuards_expandNext Generated.expandCases ms with
+        | none => "hang"
+        | some r => showR (fun (s, _) => s!"ok signed={s}") r
+  | ["x.idxarch", gz, es, fin] =>
+    some <| triple <| match rEntries es with
+      | none => "bad-wire"
+      | some es =>
+        if !rBool gz then "err" else
+        showR (fun _ => "ok") (indexFromArchiveG Generated.prefixGuards_IndexFromArchive es
+          (if fin = "eof" then .eof else .err))
+  | ["x.inc", path, files] =>
+    some <| triple <| match rConfs files with
+      | none => "bad-wire"
+      | some fs =>
+        match loadConfigG fs (unhexS path) with
+        | none => "hang"
+        | some true => "ok"
+        | some false => "err"
   | _ => none
 
 end Apko.Driver.Robust
